@@ -73,22 +73,23 @@ NA_REASON = {}
 
 # additions made after the two rounds of seeded changes (DESIGN.md §0.2, §0.5)
 ADDENDA = {
+ "C03": " 29 scoping programs with fixed expectations, among them captured variables read and written through dot paths after the creating activation returned, a parameter named like its function in tail position, and the function's own name re-bound in an and/or operand or a cond predicate.",
  "C01": " Also: index / slice / selector expressions over every combination of seven bounds as values, assignment sources and targets; dotted pairs and improper argument lists; 30 constructs nested 200 / 2000 (thorough 6000) deep; every form in operand position between user-function calls. Thorough repeats the quick case list in workers built with the race detector (+checkptr).",
- "C02": " The generator also carries break/continue in final and non-final and/or operands and cond predicates, and integer power. 27 fixed-expectation programs (late binding, fresh literals incl. {}, effects before a wrong-arity error, append/concat results not sharing storage, ranging over keys of several types).",
+ "C02": " The generator also carries break/continue in final and non-final and/or operands and cond predicates, and integer power. 27 fixed-expectation programs (late binding, fresh literals incl. {}, effects before a wrong-arity error, append/concat results not sharing storage, ranging over keys of several types). Also per-iteration parameters of functions recursing by tail calls (closures made on the way keep theirs) and map / apply over the empty list.",
  "C04": " The declaration surface includes include/source of several files (empty and comment-only ones), typed funcs with empty bodies and several results, empty (begin)/(newScope); the idle history mixes in compile-time failures of every for clause, macros, packages and funcs. Host-API sequences (EvalString, LoadString x n + Run, ParseTokens+EvalExpressions, Apply, Duplicate) judged by a model of the globals, rest state and empty-input probes.",
- "C05": " Position sweep: 71 templates (every sub-form position of literals, templates, special forms, infix constructs, declarations, higher-order builtins) x 13 failing forms must fail, leave the VM at rest, keep earlier definitions and run nothing after the failure. Host-API sequences with failing steps mixed in (compile, runtime, parse, macro, lazy-force failures; a pending load followed by a failing load).",
- "C06": " Three-clause for headers are checked with every subset of their clauses empty. Operands that are postfix chains (recs[1].b, (g a).b, h.k[0], m[0][1], q[i:]) and blocks nested in blocks executed repeatedly.",
+ "C05": " Position sweep: 71 templates (every sub-form position of literals, templates, special forms, infix constructs, declarations, higher-order builtins) x 13 failing forms must fail, leave the VM at rest, keep earlier definitions and run nothing after the failure. Host-API sequences with failing steps mixed in (compile, runtime, parse, macro, lazy-force failures; a pending load followed by a failing load). Failing forms include a macro / function / typed function defined again with a body that does not compile (the earlier definition must still answer) and hash lookups whose computed key fails; host functions that apply a failing Go builtin (eval, map, apply, hget) and handle the error themselves.",
+ "C06": " Three-clause for headers are checked with every subset of their clauses empty. Operands that are postfix chains (recs[1].b, (g a).b, h.k[0], m[0][1], q[i:]) and blocks nested in blocks executed repeatedly. Every block is also translated, and when its value is a number or boolean evaluated, while a macro is being expanded; semantic programs also run with a comment directly after the opening brace and with a labelled loop as the block's first statement.",
  "C07": " Calls with three operands must equal the nested binary calls (left fold). The same object on both sides; 12000 refused comparisons in one interpreter; comparison results overwritten through pointers.",
  "C08": " Routes include calls made while a macro body runs (directly and through eval; macro bodies run in a duplicated interpreter) and expectError / assert / lazy-argument / loop / sort-callback / package-body wrappers. A full unsandboxed interpreter is created first in the same process; aliases named like the dangerous primitives called through a variable; CLI flag combinations with -sandbox.",
  "C09": " Also 34 non-tail contexts (array/list/hash/template construction, assert, arithmetic, tests, initializers, assignments, loop bodies, non-final operands) and wrong-arity self calls below every tail context, and 23 tail-recursive functions with unusual signatures (variadic, zero-parameter, lazy, typed, package members, body-level defs), all judged against the same function with the self call wrapped in a host identity call. Typed funcs whose tail self call passes a wrong-typed argument or passes its arguments by name (either order, unknown label).",
  "C10": " Also a struct whose Go field names repeat across its embedding tree, convert / change / convert-again sequences over every route, undeclared fields with nil or [] values. Thorough repeats the quick case list in race-detector (+checkptr) workers (the converter's unsafe helper).",
- "C11": " The bytes of one value must still decode to it after another value was encoded in between.",
+ "C11": " The bytes of one value must still decode to it after another value was encoded in between. Strings made of the encoders' own punctuation; after a container nested in the value is changed in place the next encoding must decode to the changed value.",
  "C12": " Radix, decimal and ULL spellings at the 63/64-bit limits are checked in every tier. Poisoned lexer sequences (texts abandoned inside an escape), shared sub-arrays, the owritef route.",
  "C13": " Every prefix of three token-rich texts is loaded and abandoned (stopping the lexer inside escapes, exponents, multi-rune operators, comment openers) before 18 rich probes. Thorough repeats the quick case list in race-detector workers (the parser runs in an iter.Pull coroutine).",
- "C14": " (str h) and (json h) must be exactly those of a hash built afresh from the model's content. Hashes referenced from two places, views (keys, hpair, ranges) that must not alias the hash, eight copy scenarios followed by deletes in the original.",
+ "C14": " (str h) and (json h) must be exactly those of a hash built afresh from the model's content. Hashes referenced from two places, views (keys, hpair, ranges) that must not alias the hash, eight copy scenarios followed by deletes in the original. 60 histories store values of every kind (nil, empty string, zero, false, empty containers, chars, floats) under symbol, string and integer keys, judged under every view including the one-variable go-style range.",
  "C15": " Thirteen macro shapes (three whose expansion breaks / continues out of the caller's loop) at seven kinds of call site, including below let+newScope inside a loop with the names read again afterwards. Ten fixed template/macro expectations (self call inside an unquote or splice, duplicated and reordered argument effects), macros written in Go (AddMacro) in operand, let, function-body and loop position, 1500 failing expansions followed by ordinary macro use in the same and a fresh interpreter.",
  "C16": " 28 lazy-versus-strict twin programs (apply/map binding non-self-evaluating values to lazy formals; argument variables re-bound in the forcing frame) must behave like the same program with strict formals. Dot-path arguments of strict functions (11 callee shapes x 6 call routes x 4 containers x 6 places where the root is bound; tail self calls) must denote the caller's value.",
- "C17": " The inner struct's name extends the outer one's; fields include a pointer to a struct; a struct declared without fields must accept no key of any kind; values include pointers to other structs, the type int64 itself and [nil 1].",
+ "C17": " The inner struct's name extends the outer one's; fields include a pointer to a struct; a struct declared without fields must accept no key of any kind; values include pointers to other structs, the type int64 itself and [nil 1]. A rune field written with characters; arrays computed by map, keys, append, rest, slice, concat and arrays changed in place after their type was first asked for.",
  "C18": " Generic accessors (hget in all spellings, hpair) handed the package value itself must never return a private member's canary. Every value path is also handed as the caller's argument to a function defined inside a package; private members of an enclosing package are named through each nested package that does not define them (read, def, set, infix assignment, call, hash descent).",
  "C19": " Script histories include names that differ only in letter case, judged through ==, !=, and equality of arrays and lists holding the symbols. The name pool includes the empty name (33 operations).",
  "C20": " The earlier interpreters also fail inside macro expansions, the compiler, builtins and deep recursion, and edit in place the lists that listing builtins handed out; each fixed program is run once more after every noise program. Fixed programs include record copies (key order of the copy), absent-key probes with colliding keys of another type, nested-container printing after another interpreter chose (pretty true).",
